@@ -31,6 +31,21 @@ var engineAssumptions = []string{
 
 var checks = []Check{
 	{
+		ID: "C10", Title: "RESP codec: decode and encode are inverse and independent of chunking", Level: "exploration",
+		LevelText: "bounded-exhaustive enumeration: every value of the RESP grammar up to depth 2 over boundary texts/integers, every concatenation of small messages under all chunkings (<= 14 bytes) or every placement of <= 2/3 cuts, six reader buffer sizes, against an independent codec; integer fast paths against strconv on every string over a 7-letter alphabet up to length 7/8 and every i in [-70000,70000]",
+		Technique: "bounded-exhaustive input and chunking enumeration against an independent reference codec",
+		Assumptions: []string{"Go compiler and runtime", "independent RESP codec /verif/sim/resp and strconv as references", "boundary sets chosen from the thresholds in the code (32, 512, 4096, 8192, 32768, 10 digits)"},
+		Jobs:      []Job{{Pkg: "proc/redis", Scenarios: []string{"C10/codec"}, Shards: 16, QuickS: 120, ThoroughS: 900}},
+	},
+	{
+		ID: "C12", Title: "key-to-slot mapping equals the Redis Cluster specification", Level: "exploration",
+		LevelText: "bounded-exhaustive input enumeration through the real routing function: all keys of length 0-3 (every CRC state x every next byte: the induction step for all lengths), two free positions in keys up to 64 bytes, every brace placement over a 4-letter alphabet up to length 9/11, against a bit-by-bit CRC16/XMODEM and the specification's hash-tag rule",
+		Technique: "bounded-exhaustive input enumeration (complete by induction over the CRC state)",
+		Rule:      "each evaluation is a distinct key; all are counted (the 2^24 three-byte keys cover every CRC state x next byte)",
+		Assumptions: []string{"Go compiler and runtime", "reference CRC16/XMODEM and hash-tag rule written from the Redis Cluster specification", "slot read through upstream.chooseHost over an identity slot table"},
+		Jobs:      []Job{{Pkg: "proc/redis", Scenarios: []string{"C12/slots"}, Shards: 1, QuickS: 120, ThoroughS: 600}},
+	},
+	{
 		ID: "C15", Title: "host set and health checking keep a consistent usable view", Level: "model_checking",
 		LevelText: "explicit-state BFS over every operation sequence on the real host.Set up to depth 5/7 against a reference model in every state; every interleaving (preemption bound 2/3) of 2-3 threads of set operations plus a reader; every check-outcome sequence for all thresholds 0..3 through the real monitor step",
 		Technique: "explicit-state BFS over operation histories + preemption-bounded schedule exploration of real goroutines",
